@@ -30,6 +30,7 @@ type c11Gen struct {
 	allowHomonyms         bool // an unrelated device named like the target of a nested Scope directive
 	// ... also when that target is an object declared elsewhere under a path-prefixed name (F-C11g)
 	allowHomonymOfRelocated bool
+	allowForeign            bool // absolute-named objects declared inside containers
 }
 
 var c11Predefined = []string{"_GPE", "_PR_", "_SB_", "_SI_", "_TZ_"}
@@ -219,6 +220,19 @@ func (g *c11Gen) body(abs string, depth int) []amlObj {
 			continue
 		}
 		out = append(out, o)
+	}
+	if depth >= 1 && g.allowForeign && rapid.IntRange(0, 7).Draw(g.t, "foreign") == 0 {
+		// an object declared here, inside a container, under an absolute name that places it in
+		// the root or in a predefined scope (an absolute name means the same wherever it stands)
+		nm := g.name()
+		target, segs := "\\", []string{nm}
+		if rapid.Bool().Draw(g.t, "foreignpredef") {
+			p := rapid.SampledFrom(c11Predefined).Draw(g.t, "foreignscope")
+			target, segs = "\\"+p, []string{p, nm}
+		}
+		out = append(out, amlObj{K: "name", Name: amlName{Root: true, Segs: segs}, Abs: c11JoinPath(target, nm),
+			Data: &amlData{K: "word", V: uint64(rapid.IntRange(0, 0xffff).Draw(g.t, "foreignval"))}})
+		g.stats.foreign++
 	}
 	if depth == 0 && !g.noDeepChain && rapid.IntRange(0, 29).Draw(g.t, "deepchain") == 0 {
 		// devices nested dozens of levels deep, each level declaring a name before and after
@@ -827,6 +841,10 @@ func (g *c11Gen) program() c11Case {
 				if x.K == "field" || x.K == "indexfield" || x.K == "opregion" {
 					continue
 				}
+				if x.Name.Root {
+					sc.Body = append(sc.Body, x) // already carries an absolute name
+					continue
+				}
 				x.Name = amlName{Carets: 1, Segs: []string{x.Name.last()}}
 				sc.Body = append(sc.Body, x)
 			}
@@ -924,6 +942,7 @@ func TestVerifC11(t *testing.T) {
 			allowRootScope:        true,
 			allowShadowing:        true,
 			allowHomonyms:         true,
+			allowForeign:          true,
 			allowHomonymOfRelocated: !vlib.OpenFinding("F-C11g"),
 			allowSplitIndexField:  !vlib.OpenFinding("F-C11f"),
 		}
@@ -953,6 +972,7 @@ func TestVerifC11(t *testing.T) {
 		add(g.stats.shadowed > 0, "method-shadowing-a-method-of-an-enclosing-scope")
 		add(g.stats.homonyms > 0, "homonym-of-a-nested-scope-directive's-target")
 		add(c.Poison, "loaded-by-a-parser-that-rejected-a-table-before")
+		add(g.stats.foreign > 0, "absolute-named-object-declared-inside-a-container")
 		add(g.stats.deepChain > 0, "devices-nested-8-or-more-deep")
 		add(g.stats.deepChain >= 62, "devices-nested-62-or-more-deep")
 		labels = append(labels, fmt.Sprintf("tables=%d", g.stats.tables))
